@@ -10,6 +10,7 @@ from __future__ import annotations
 import json
 import os
 import shutil
+import warnings
 from fractions import Fraction as Fr
 
 from . import lib, predfam
@@ -578,6 +579,75 @@ def domain_tolerance_stream(ctx, n):
         ctx.traces_validated += 1
 
 
+def mesh_option_matrix(ctx, n_meshes):
+    """EVERY combination of the three mesh options (--disable-mesh-reordering, --disable-mesh-orphan-point-removal,
+    --disable-mesh-space-dimension-matching) x {same / other space dimension} x {same / other storage order} x {no / one
+    unconnected point on one side} x both roles, for a pair of files holding the same mesh and fields (exhaustive per mesh):
+    exit 0 unless an option switches off the very mechanism the pair needs"""
+    import itertools
+    import random as _random
+    import meshio
+    import numpy as np
+    rng = ctx.rng
+    FLAGS = ["--disable-mesh-reordering", "--disable-mesh-orphan-point-removal", "--disable-mesh-space-dimension-matching"]
+    for it in range(n_meshes):
+        nx = rng.randint(2, 3)
+        pts2 = np.array([[float(i), float(j)] for j in range(2) for i in range(nx + 1)])
+        quads = np.array([[i, i + 1, nx + 1 + i + 1, nx + 1 + i] for i in range(nx)])
+        u = np.array([rng.randint(-8, 8) / 4.0 for _ in pts2])
+        c = np.array([rng.randint(-8, 8) / 4.0 for _ in quads])
+        root = os.path.join(str(ctx.workdir), f"mm{it}")
+        os.makedirs(root)
+
+        def write(name, dim3, permuted, ghost):
+            P, Q, U, C = pts2, quads, u, c
+            if permuted:
+                r = _random.Random(it)
+                perm = list(range(len(P)))
+                while perm == sorted(perm):
+                    r.shuffle(perm)
+                inv = np.empty(len(perm), dtype=int)
+                inv[perm] = np.arange(len(perm))
+                cperm = list(range(len(Q)))[::-1]
+                P, U, Q, C = P[perm], U[perm], inv[Q][cperm], C[cperm]
+            if ghost:
+                P, U = np.vstack([P, [[50.0, 50.0]]]), np.append(U, 0.0)
+            if dim3:
+                P = np.hstack([P, np.zeros((len(P), 1))])
+            cwd = os.getcwd()
+            os.chdir(root)
+            try:
+                meshio.xdmf.write(name, meshio.Mesh(P, [("quad", Q)], point_data={"u": U}, cell_data={"c": [C]}), data_format="XML")
+            finally:
+                os.chdir(cwd)
+            return os.path.join(root, name)
+        base = write("base.xdmf", False, False, False)
+        for dim3, permuted, ghost in itertools.product((False, True), repeat=3):
+            other = write(f"o{int(dim3)}{int(permuted)}{int(ghost)}.xdmf", dim3, permuted, ghost)
+            for k in range(8):
+                flags = [f for j, f in enumerate(FLAGS) if k >> j & 1]
+                for role in ("other_is_result", "other_is_reference"):
+                    a, b = (other, base) if role == "other_is_result" else (base, other)
+                    with warnings.catch_warnings():
+                        warnings.simplefilter("ignore")
+                        rc, log, exc = run_cli(["file", a, b, "--verbosity", "0"] + flags)
+                    canon_ = {"mesh_option_matrix": {"other_dimension": dim3, "other_order": permuted, "unconnected_point": ghost,
+                                                     "flags": flags, "role": role, "nx": nx}}
+                    ctx.case(canon_, True, sample={"case": canon_, "exit": rc} if k == 0 else None)
+                    ctx.count("mesh option matrix")
+                    ctx.tie("T2 mesh option matrix (exhaustive per mesh): exit status = statement")
+                    need_fail = ((dim3 and FLAGS[2] in flags) or (permuted and FLAGS[0] in flags)
+                                 or (ghost and (FLAGS[0] in flags or FLAGS[1] in flags)))
+                    if exc:
+                        ctx.violation("E4", f"exception escaped the CLI entry point: {exc}", canon_)
+                    elif (rc == 0) == need_fail:
+                        ctx.violation("E4", f"exit code {rc} for the same mesh stored with {'another' if dim3 else 'the same'} space dimension, "
+                                            f"{'another' if permuted else 'the same'} order, {'an' if ghost else 'no'} unconnected point under "
+                                            f"{flags or 'no mesh option'}: the statement requires {'non-zero' if need_fail else '0'}", canon_)
+                    ctx.traces_validated += 1
+        shutil.rmtree(root, ignore_errors=True)
+
+
 def run(ctx):
     ctx.prove()
     t1(ctx)
@@ -585,6 +655,7 @@ def run(ctx):
     domain_tolerance_stream(ctx, 60 if ctx.tier == "quick" else 1500)
     from . import globtie
     globtie.tie(ctx, 600 if ctx.tier == "quick" else 15000, "--include-fields / --exclude-fields")
+    mesh_option_matrix(ctx, 2 if ctx.tier == "quick" else 30)
     n = 1500 if ctx.tier == "quick" else 40000
     scs = gen_scenarios(ctx.rng, n)
     impls = [run_impl(sc, str(ctx.workdir), i, want_junit=False) for i, sc in enumerate(scs)]
